@@ -27,6 +27,8 @@ type Solver struct {
 	Log      io.Writer // optional transcript
 	Slowest  time.Duration
 	SlowHook func(time.Duration)
+	hard     time.Duration
+	Dead     bool // the process was killed by the watchdog or died
 }
 
 // NewSolver starts a solver. kind is "z3", "z3-new" or "cvc5".
@@ -34,7 +36,7 @@ func NewSolver(kind string, timeoutMs int) (*Solver, error) {
 	var cmd *exec.Cmd
 	switch kind {
 	case "z3", "z3-new":
-		cmd = exec.Command(kind, "-in", fmt.Sprintf("-t:%d", timeoutMs))
+		cmd = exec.Command(kind, "-in", fmt.Sprintf("-t:%d", timeoutMs), "-memory:4096")
 	case "cvc5":
 		cmd = exec.Command("cvc5", "--incremental", "--lang=smt2", "--produce-models", fmt.Sprintf("--tlimit-per=%d", timeoutMs))
 	default:
@@ -53,6 +55,11 @@ func NewSolver(kind string, timeoutMs int) (*Solver, error) {
 		return nil, err
 	}
 	s := &Solver{name: kind, cmd: cmd, in: in, out: bufio.NewReaderSize(out, 1<<16)}
+	// hard limit per answer: solvers do not always honour their own soft
+	// time limit (z3 4.8.12 was seen spinning for over an hour with 7 GB under
+	// -t:10000); the watchdog kills the process, the pending and all later
+	// answers of this process are "unknown", the worker starts a new one
+	s.hard = time.Duration(3*timeoutMs)*time.Millisecond + 20*time.Second
 	if kind == "cvc5" {
 		s.Send("(set-logic ALL)")
 	}
@@ -95,8 +102,15 @@ func (s *Solver) PopTo(d int) {
 }
 
 func (s *Solver) readLine() string {
+	if s.Dead {
+		return "(error \"solver died: killed earlier\")"
+	}
+	proc := s.cmd.Process
+	wd := time.AfterFunc(s.hard, func() { proc.Kill() })
 	l, err := s.out.ReadString('\n')
+	wd.Stop()
 	if err != nil {
+		s.Dead = true
 		return "(error \"solver died: " + err.Error() + "\")"
 	}
 	return strings.TrimSpace(l)
